@@ -7,7 +7,7 @@
 (*     step on what the code really did                                    *)
 (* Environment: TRACE=<file.ndjson>                                        *)
 (***************************************************************************)
-EXTENDS TraceBase, MonC01, MonC07, MonC08, MonC09, MonC10, MonC11, MonC12, MonC13, MonC14, MonC15, MonC16, MonC17, MonC19
+EXTENDS TraceBase, MonC01, MonC14, MonC17, MonHits
 
 On(name) == name \in DOMAIN IOEnv /\ IOEnv[name] = "1"
 
@@ -17,9 +17,10 @@ VARIABLES l,        \* next line of the trace
           mon,      \* node index -> monitor states
           conf,     \* conformance bookkeeping [calls, ndiv, divs]
           viol,     \* monitor violations [n, list]
-          gm        \* cross-instance monitor state (C17 twin lanes)
+          gm,       \* cross-instance monitor state (C17 twin lanes)
+          hits      \* vacuity guard: tag -> number of steps that exercised it (MonHits)
 
-vars == <<l, nodes, env, mon, conf, viol, gm>>
+vars == <<l, nodes, env, mon, conf, viol, gm, hits>>
 
 MaxList == 12
 
@@ -29,6 +30,7 @@ Init == /\ l = 1 /\ nodes = <<>> /\ env = EnvInit /\ mon = <<>>
         /\ conf = [calls |-> 0, ndiv |-> 0, divs |-> <<>>]
         /\ viol = [n |-> 0, list |-> <<>>]
         /\ gm = C17Init
+        /\ hits = <<>>
 
 MonInit == [C01 |-> C01Init, C07 |-> C07Init, C11 |-> C11Init, C12 |-> C12Init, C08 |-> C08Init, C09 |-> C09Init, C10 |-> C10Init, C13 |-> C13Init, C14 |-> C14Init, C15 |-> C15Init, C16 |-> C16Init, C19 |-> C19Init]
 
@@ -70,11 +72,11 @@ Next ==
               /\ nodes' = <<>> /\ mon' = <<>>
               /\ env' = [f \in DOMAIN EnvInit |-> IF HasField(e, f) THEN e[f] ELSE EnvInit[f]]
               /\ gm' = C17Init
-              /\ UNCHANGED <<conf, viol>>
+              /\ UNCHANGED <<conf, viol, hits>>
          [] e.ev = "new" ->
               /\ nodes' = (e.node :> [st |-> AbsState(e, StaticOf(e)), pub |-> e.pub, hook |-> e.hook]) @@ nodes
               /\ mon' = (e.node :> MonInit) @@ mon
-              /\ UNCHANGED <<env, conf, viol, gm>>
+              /\ UNCHANGED <<env, conf, viol, gm, hits>>
          [] e.ev = "call" ->
               LET prev == nodes[e.node]
                   d == IF On("NOCONF") THEN {} ELSE Divergence(prev.st, e, env.dbg)
@@ -99,6 +101,10 @@ Next ==
                              ELSE (e.node :> [st |-> AbsState(e, prev.st), pub |-> e.pub, hook |-> e.hook]) @@ nodes
                  /\ mon' = (e.node :> m1) @@ mon
                  /\ gm' = g1
+                 /\ hits' = IF panic \/ On("NOHITS") THEN hits
+                            ELSE LET H == Hits(mon[e.node], ObsOf(e, prev)) IN
+                                 [t \in DOMAIN hits \cup H |->
+                                    (IF t \in DOMAIN hits THEN hits[t] ELSE 0) + (IF t \in H THEN 1 ELSE 0)]
                  /\ UNCHANGED env
          [] e.ev = "group" ->
               \* a driver-level comparison across several instances / runs
@@ -115,12 +121,12 @@ Next ==
                         ELSE <<[line |-> l, run |-> env.run, call |-> "group:" \o e.kind, v |-> (e.prop :> gv)]>>
               IN /\ viol' = [n |-> viol.n + Len(nv),
                              list |-> IF Len(viol.list) >= MaxList THEN viol.list ELSE viol.list \o nv]
-                 /\ UNCHANGED <<nodes, env, mon, conf, gm>>
-         [] OTHER -> UNCHANGED <<nodes, env, mon, conf, viol, gm>>
+                 /\ UNCHANGED <<nodes, env, mon, conf, gm, hits>>
+         [] OTHER -> UNCHANGED <<nodes, env, mon, conf, viol, gm, hits>>
 
 Spec == Init /\ [][Next]_vars
 
 AtEnd == l = Len(Rec) + 1
-Report == AtEnd => PrintT(<<"RESULT", ToJson([lines |-> Len(Rec), conf |-> conf, viol |-> viol])>>)
+Report == AtEnd => PrintT(<<"RESULT", ToJson([lines |-> Len(Rec), conf |-> conf, viol |-> viol, hits |-> hits])>>)
 Done == PrintT(<<"CONSUMED", TLCGet("stats").diameter - 1, Len(Rec)>>)
 =============================================================================
